@@ -267,6 +267,147 @@ def mutations(rng, b, n_mut, heavy):
     return muts
 
 
+# ---- synthetic LARGE ProWizard modules --------------------------------------------------------
+# pw_check() (prowizard/prowiz.c) is one of the two places that look inside a handle: memory handles are
+# tested in place, every other back-end through a 64 KiB buffer that grows on request (PW_REQUEST_DATA).
+# Only modules larger than 64 KiB whose format test asks for more data past that point exercise the
+# buffered path.  Layouts written from the depackers' own code (heatseek.c, mp.c).
+
+PTK_PERIODS = [856, 808, 762, 720, 678, 640, 604, 570, 538, 508, 480, 453, 428, 404, 381, 360, 339, 320, 302, 285,
+               269, 254, 240, 226, 214, 202, 190, 180, 170, 160, 151, 143, 135, 127, 120, 113]
+
+
+def _ptk_event(rng, nins):
+    """4-byte Protracker event with byte0 <= 3 (sample < 16), harmless effects only."""
+    if rng.random() < 0.55:
+        return bytes(4)
+    per = rng.choice(PTK_PERIODS)
+    ins = rng.randrange(1, min(nins, 15) + 1)
+    fx, prm = rng.choice(((0, 0), (0xC, rng.randrange(0, 0x41)), (0xA, rng.randrange(0, 16)), (0, 0)))
+    return bytes([per >> 8, per & 0xff, (ins << 4) | fx, prm])
+
+
+def _hdr8(sample_lens, loop_words):
+    """31 sample descriptions of 8 bytes: size(words) finetune volume loop-start(words) loop-size(words)."""
+    h = bytearray()
+    for i in range(31):
+        ln = sample_lens[i] if i < len(sample_lens) else 0
+        h += (ln // 2).to_bytes(2, "big") + bytes([0, 0x40 if ln else 0]) + (0).to_bytes(2, "big")
+        h += (loop_words if ln else 0).to_bytes(2, "big")
+    return h
+
+
+def _order_table(rng, npat, length):
+    order = list(range(npat))[:length]
+    while len(order) < length:
+        order.append(rng.randrange(npat))
+    if npat - 1 not in order:
+        order[-1] = npat - 1
+    return bytes([length, 0x7f]) + bytes(order) + bytes(128 - len(order))
+
+
+def gen_heatseeker(rng, npat, sample_lens, packed):
+    """Heatseeker 1.0 (heatseek.c): 31x8 header, length, 0x7f, 128 orders, then per pattern and voice a
+    track of 4-byte events with `80 00 00 n` = skip n rows and `c0 00 hh ll` = copy of track (hhll >> 2),
+    then the sample data.  Sample loop size 0, so that the Module Protector test (same header, checked
+    earlier) declines.  test_crb first asks for min(pattern upper bound, sample size) bytes and then, event
+    by event, for more: with less sample data than pattern data it keeps requesting past 64 KiB."""
+    out = bytearray(_hdr8(sample_lens, 0))
+    out += _order_table(rng, npat, min(127, max(npat, 4)))
+    assert len(out) == 378
+    ntracks = 0
+    for pat in range(npat):
+        for voice in range(4):
+            if packed and ntracks > 8 and rng.random() < 0.15:
+                ref = rng.randrange(0, ntracks)
+                out += bytes([0xC0, 0, ((ref * 4) >> 8) & 0xff, (ref * 4) & 0xff])
+                ntracks += 1
+                continue
+            k = 0
+            while k < 64:
+                if packed and k < 60 and rng.random() < 0.12:
+                    n = rng.randrange(1, min(8, 63 - k) + 1)
+                    out += bytes([0x80, 0, 0, n])
+                    k += n + 1
+                else:
+                    out += _ptk_event(rng, len(sample_lens))
+                    k += 1
+            ntracks += 1
+    for ln in sample_lens:
+        out += bytes(rng.randrange(256) for _ in range(ln))
+    return bytes(out)
+
+
+def gen_module_protector(rng, npat, sample_lens, with_id):
+    """Module Protector (mp.c): ["TRK1"] 31x8 header (loop size 1 word), length, 0x7f, 128 orders, raw
+    Protracker patterns, sample data.  The test asks once for all pattern data (up to 128 KiB)."""
+    out = bytearray(b"TRK1" if with_id else b"")
+    out += _hdr8(sample_lens, 1)
+    length = min(120, max(npat, 4))
+    out += _order_table(rng, npat, length)
+    # depack_mp skips four zero bytes in front of the pattern data ("unknown empty bytes"): start with a note
+    out += bytes([0x01, 0xAC, 0x10, 0x00])
+    for _ in range(npat * 256 - 1):
+        out += _ptk_event(rng, len(sample_lens))
+    for ln in sample_lens:
+        out += bytes(rng.randrange(256) for _ in range(ln))
+    return bytes(out)
+
+
+def synth_prowizard(td, seed, quick):
+    """Deterministic in the seed; 70..400 KiB each."""
+    import random
+    rng = random.Random(seed * 7907 + 13)
+    d = os.path.join(td, "synth")
+    os.makedirs(d, exist_ok=True)
+    specs = [
+        # name, generator, args        (sample sizes even, <= 65534)
+        ("crb-progressive", gen_heatseeker, (rng.randrange(96, 121), [30000, 24000, 16000], False)),
+        ("crb-packed", gen_heatseeker, (rng.randrange(100, 128), [28000, 2000 * rng.randrange(8, 20), 12000], True)),
+        ("crb-bigsamples", gen_heatseeker, (rng.randrange(70, 100), [65534, 65534, 60000, 40000], True)),
+        ("mp-noid", gen_module_protector, (rng.randrange(90, 128), [40000, 30000, 20000], False)),
+        ("mp-trk1", gen_module_protector, (rng.randrange(100, 128), [65534, 65534, 50000], True)),
+    ]
+    if not quick:
+        for k in range(6):
+            lens = [2 * rng.randrange(1000, 32767) for _ in range(rng.randrange(2, 7))]
+            specs.append(("crb-r%d" % k, gen_heatseeker, (rng.randrange(66, 128), lens, rng.random() < 0.6)))
+            lens = [2 * rng.randrange(1000, 32767) for _ in range(rng.randrange(2, 7))]
+            specs.append(("mp-r%d" % k, gen_module_protector, (rng.randrange(66, 128), lens, rng.random() < 0.5)))
+    out = []
+    for name, fn, args in specs:
+        b = fn(rng, *args)
+        # the file name keeps the xxx.yyy shape some loaders look at
+        pth = os.path.join(d, "pwz.%s" % name)
+        open(pth, "wb").write(b)
+        out.append(pth)
+    return out
+
+
+def enlarge_mutation(rng, b):
+    """Generic enlargement for formats with a plain sample table: raise the length field of the last
+    non-empty sample and append as much sample data.  Two layouts: Protracker-style header (31 records of
+    30 bytes at offset 20, length at +22) and the 8-byte records at offset 0 (or 4, after an id) used by
+    several packers.  -> (label, edits) or None."""
+    n = len(b)
+    for base, rec, lenoff, cnt, lab in ((20, 30, 22, 31, "ptk"), (0, 8, 0, 31, "hdr8"), (4, 8, 0, 31, "hdr8+4")):
+        if n < base + rec * cnt + 130:
+            continue
+        lens = [int.from_bytes(b[base + i * rec + lenoff: base + i * rec + lenoff + 2], "big") for i in range(cnt)]
+        total = 2 * sum(lens)
+        if total == 0 or total > n or any(l > 0x8000 for l in lens):
+            continue
+        last = max(i for i in range(cnt) if lens[i])
+        room = 0x7fff - lens[last]
+        if room < 64:
+            continue
+        add = rng.randrange(32, min(room, 0x6000) + 1)
+        off = base + last * rec + lenoff
+        data = bytes(rng.randrange(256) for _ in range(2 * add))
+        return ("enlarge:%s" % lab, [(off, (lens[last] + add).to_bytes(2, "big")), (n, data)])
+    return None
+
+
 def synth_files(td):
     """Inputs derived from the divergence map (DESIGN 4 C07): MUSX file whose last chunk claims more
     bytes than remain (arch_test loops on hio_eof and skips with SEEK_CUR)."""
@@ -446,7 +587,8 @@ def entrypoint_oracle(ck, gen, stats):
     quick = ck.tier == "quick"
     td = tmpdir()
     files = [f for f in vlib.corpus_files() if os.path.getsize(f) <= (600000 if quick else 4000000)]
-    synth = synth_files(td)
+    synth = synth_files(td) + synth_prowizard(td, ck.seed, quick)
+    stats["synthetic_inputs"] = len(synth)
     base = [("b%d" % i, f, -1, []) for i, f in enumerate(synth + files)]
     src_of = {c[0]: c for c in base}
     nframes = 3 if quick else 8
@@ -482,7 +624,20 @@ def entrypoint_oracle(ck, gen, stats):
         if not b:
             continue
         n_mut = (10 if pri == 0 else 5) if quick else (120 if pri == 0 else 50)
-        for k, (label, trunc, edits) in enumerate(mutations(ck.rng, b, n_mut, pri == 0)):
+        muts = mutations(ck.rng, b, n_mut, pri == 0)
+        for _ in range(1 if quick else 3):
+            en = enlarge_mutation(ck.rng, b)
+            if en:
+                muts.append((en[0], -1, en[1]))
+        if src in synth and len(b) > 65536:
+            # large synthetic modules: also damage them around the 64 KiB buffer boundary and near the end
+            for t in (65535, 65536, 65537, 69632, len(b) - 1, len(b) - 4097, (len(b) + 65536) // 2):
+                if 0 < t < len(b):
+                    muts.append(("trunc@big%d" % t, t, []))
+            for _ in range(4):
+                off = ck.rng.randrange(65536, len(b))
+                muts.append(("flip@big", -1, [(off, bytes([b[off] ^ (1 << ck.rng.randrange(8))]))]))
+        for k, (label, trunc, edits) in enumerate(muts):
             mid = "%s.m%d" % (cid, k)
             mut_cases.append((mid, src, trunc, edits))
             src_of[mid] = (mid, src, trunc, edits, label)
